@@ -4,26 +4,100 @@ package k_nearest_nodes
 
 // Machine-checked contracts, read by the govc verifier under /verif. Comment-only.
 
-// kmem(t, k): the contact k (ID and address) is an element of the bounded set t; kdata(t, k): the data stored with it.
-// The set is a persistent value backed by github.com/benbjohnson/immutable.SortedMap (outside the module): its
-// methods are given the contracts of a bounded ordered set (assumed).
-//@ spec uf kmem(t k_nearest_nodes.Type, k krpc.NodeInfoAddrPort) bool
-//@ spec uf kdata(t k_nearest_nodes.Type, k krpc.NodeInfoAddrPort) interface{}
+// The bounded set is a persistent value backed by github.com/benbjohnson/immutable.SortedMap, which is outside the
+// module. The sorted map is given the contract of a finite ordered map (assumed):
+//   smhas(m, k)      k is a key of m            smval(m, k)   the value stored under k
+//   smlen(m)         the number of keys          smless(m, a, b)  a sorts strictly before b in m's order
+// Maps derived from a map by Set / Delete keep its order.
+//@ spec uf smhas(m Loc, k krpc.NodeInfoAddrPort) bool
+//@ spec uf smval(m Loc, k krpc.NodeInfoAddrPort) interface{}
+//@ spec uf smlen(m Loc) int
+//@ spec uf smless(m Loc, a krpc.NodeInfoAddrPort, b krpc.NodeInfoAddrPort) bool
+//@ spec uf itof(i Loc) Loc
+//@ ghost map atlast Loc Bool
 
-//@ func (dht/k-nearest-nodes.Type).Full
+//@ func (*github.com/benbjohnson/immutable.SortedMap[K, V]).Len
 //@   trusted
-//@   option uf
 //@   option noalloc
-//@   ensures result == self.Full()
-//@ func (dht/k-nearest-nodes.Type).Farthest
+//@   ensures the-number-of-keys: result == smlen(m) && result >= 0
+//@ func (*github.com/benbjohnson/immutable.SortedMap[K, V]).Set
 //@   trusted
-//@   option uf
-//@   option noalloc
-//@   ensures result == self.Farthest()
-//@ func (dht/k-nearest-nodes.Type).Push
+//@   ensures a-map: result != nil
+//@   ensures keys: forall y krpc.NodeInfoAddrPort :: smhas(result, y) == (smhas(m, y) || y == key)
+//@   ensures values: forall y krpc.NodeInfoAddrPort :: smval(result, y) == (y == key ? value : smval(m, y))
+//@   ensures size: smlen(result) == (smhas(m, key) ? smlen(m) : smlen(m) + 1)
+//@   ensures same-order: forall a, b krpc.NodeInfoAddrPort :: smless(result, a, b) == smless(m, a, b)
+//@ func (*github.com/benbjohnson/immutable.SortedMap[K, V]).Delete
 //@   trusted
-//@   ensures only-the-pushed-element-is-new: forall k krpc.NodeInfoAddrPort :: kmem(result, k) ==> kmem(me, k) || k == elem.Key
-//@   ensures data-stays-with-its-contact: forall k krpc.NodeInfoAddrPort :: kmem(result, k) ==> kdata(result, k) == (k == elem.Key ? elem.Data : kdata(me, k))
+//@   ensures a-map: result != nil
+//@   ensures keys: forall y krpc.NodeInfoAddrPort :: smhas(result, y) == (smhas(m, y) && y != key)
+//@   ensures values: forall y krpc.NodeInfoAddrPort :: y != key ==> smval(result, y) == smval(m, y)
+//@   ensures size: smlen(result) == (smhas(m, key) ? smlen(m) - 1 : smlen(m))
+//@   ensures same-order: forall a, b krpc.NodeInfoAddrPort :: smless(result, a, b) == smless(m, a, b)
+//@ func (*github.com/benbjohnson/immutable.SortedMap[K, V]).Iterator
+//@   trusted
+//@   ghost atlast[result] = false
+//@   ensures over-this-map: result != nil && itof(result) == m
+//@ func (*github.com/benbjohnson/immutable.SortedMapIterator[K, V]).Last
+//@   trusted
+//@   ghost atlast[itr] = true
+//@ func (*github.com/benbjohnson/immutable.SortedMapIterator[K, V]).Next
+//@   trusted
+//@   ghost atlast[itr] = false
+//@   ensures yields-entries-of-the-map: ok ==> smhas(itof(itr), key) && smval(itof(itr), key) == value
+//@   ensures the-last-entry-is-the-greatest: old(atlast[itr]) ==> (ok == (smlen(itof(itr)) != 0)) && (ok ==> (forall y krpc.NodeInfoAddrPort :: smhas(itof(itr), y) ==> !smless(itof(itr), key, y)))
+
+// kmem(t, k): the contact k (ID and address) is an element of the bounded set t; kdata(t, k): the data stored with it.
+//@ spec def kmem(t k_nearest_nodes.Type, k krpc.NodeInfoAddrPort) bool = smhas(t.inner, k)
+//@ spec def kdata(t k_nearest_nodes.Type, k krpc.NodeInfoAddrPort) interface{} = smval(t.inner, k)
+// korder(t, a, b): a sorts strictly before b in the set's order (New: XOR distance to the target first)
+//@ spec def korder(t k_nearest_nodes.Type, a krpc.NodeInfoAddrPort, b krpc.NodeInfoAddrPort) bool = smless(t.inner, a, b)
+
+// New: the order is by XOR distance to the target, ties broken by a seeded hash of the address (the comparison
+// closure is built on github.com/anacrolix/multiless and hash/maphash, outside the module: assumed from reading it)
 //@ func dht/k-nearest-nodes.New
 //@   trusted
-//@   ensures empty: forall c krpc.NodeInfoAddrPort :: !kmem(result, c)
+//@   ensures empty: result.inner != nil && result.k == k && smlen(result.inner) == 0 && (forall c krpc.NodeInfoAddrPort :: !kmem(result, c))
+//@   ensures nearer-sorts-first: forall a, b krpc.NodeInfoAddrPort :: ult(a.ID ^ target.bits, b.ID ^ target.bits) ==> korder(result, a, b)
+
+//@ func (dht/k-nearest-nodes.Type).Len
+//@   requires a-set: me.inner != nil
+//@   ensures the-number-of-members: result == smlen(me.inner) && result >= 0
+//@ func (dht/k-nearest-nodes.Type).Full
+//@   requires a-set: me.inner != nil
+//@   ensures at-capacity: result == (smlen(me.inner) >= me.k)
+
+// Push: the result holds the old members and the pushed one, minus the greatest ones in the set's order, removed only
+// while the set is over capacity -- so nothing is dropped unless the result is full, and nothing dropped sorts before
+// anything kept.
+//@ func (dht/k-nearest-nodes.Type).Push
+//@   requires a-set: me.inner != nil && me.k >= 0
+//@   ensures a-set: result.inner != nil && result.k == me.k
+//@   ensures only-the-pushed-element-is-new: forall c krpc.NodeInfoAddrPort :: kmem(result, c) ==> kmem(me, c) || c == elem.Key
+//@   ensures data-stays-with-its-contact: forall c krpc.NodeInfoAddrPort :: kmem(result, c) ==> kdata(result, c) == (c == elem.Key ? elem.Data : kdata(me, c))
+//@   ensures same-order: forall a, b krpc.NodeInfoAddrPort :: korder(result, a, b) == korder(me, a, b)
+//@   ensures at-most-k: smlen(result.inner) <= me.k || smlen(result.inner) <= 0
+//@   ensures nothing-dropped-below-capacity: forall c krpc.NodeInfoAddrPort :: (kmem(me, c) || c == elem.Key) && !kmem(result, c) ==> smlen(result.inner) == me.k
+//@   ensures nothing-dropped-sorts-before-a-member: forall c, z krpc.NodeInfoAddrPort :: (kmem(me, c) || c == elem.Key) && !kmem(result, c) && kmem(result, z) ==> !korder(me, c, z)
+//@   loop 1
+//@     invariant a-set: me.inner != nil && me.k == old(me.k)
+//@     invariant only-the-pushed-element-is-new: forall c krpc.NodeInfoAddrPort :: smhas(me.inner, c) ==> old(smhas(me.inner, c)) || c == elem.Key
+//@     invariant data-stays-with-its-contact: forall c krpc.NodeInfoAddrPort :: smhas(me.inner, c) ==> smval(me.inner, c) == (c == elem.Key ? elem.Data : old(smval(me.inner, c)))
+//@     invariant same-order: forall a, b krpc.NodeInfoAddrPort :: smless(me.inner, a, b) == old(smless(me.inner, a, b))
+//@     invariant nothing-dropped-below-capacity: forall c krpc.NodeInfoAddrPort :: (old(smhas(me.inner, c)) || c == elem.Key) && !smhas(me.inner, c) ==> smlen(me.inner) >= me.k
+//@     invariant nothing-dropped-sorts-before-a-member: forall c, z krpc.NodeInfoAddrPort :: (old(smhas(me.inner, c)) || c == elem.Key) && !smhas(me.inner, c) && smhas(me.inner, z) ==> !old(smless(me.inner, c, z))
+
+//@ func (dht/k-nearest-nodes.Type).Farthest
+//@   requires a-set: me.inner != nil
+//@   option records farthest
+//@   panics if smlen(me.inner) == 0
+//@   ensures a-member-with-its-data: kmem(me, elem.Key) && elem.Data == kdata(me, elem.Key)
+//@   ensures the-greatest: forall y krpc.NodeInfoAddrPort :: kmem(me, y) ==> !korder(me, elem.Key, y)
+
+// Range: the callback sees members of the set, each with the data stored under it
+//@ func (*dht/k-nearest-nodes.Type).Range@f
+//@   trusted
+//@ func (*dht/k-nearest-nodes.Type).Range
+//@   requires a-set: me != nil && me.inner != nil && f != nil
+//@   modifies *
+//@   callsite dynamic:f members-with-their-own-data: kmem(*me, $0.Key) && $0.Data == kdata(*me, $0.Key)
